@@ -439,8 +439,17 @@ class C03(Check):
             return ["Err", type(e).__name__]
         return ["Ok", [canon_tok(t) for t in out], [1 if t.prev_white else 0 for t in out]]
 
+    LARGE = 300    # tokens; beyond this an expansion is outside what the model's fuel is sized for
+
     def model_view(self, case, ans):
         m = ans[0]
+        if m[0] == "Err" and m[1] == "OutOfFuel":
+            ia = self._impl_cache.get(self.key(case))
+            if ia is not None and ia[0] == "Ok" and len(ia[1]) > self.LARGE:
+                # the implementation finished with a very large expansion, the model ran out of its fixed
+                # fuel: no answer from M, counted, not compared (a small expansion with M out of fuel IS compared)
+                self.hist["model_out_of_fuel_on_large_expansion"] = self.hist.get("model_out_of_fuel_on_large_expansion", 0) + 1
+                return None
         if m[0] == "Ok":
             # spellings AND prev_white flags are compared between I and M
             return ["Ok", [str(x) for x in m[1]], [int(x) for x in m[2]]]
@@ -566,7 +575,9 @@ class C03(Check):
             return still_fails(c)
         changed = True
         steps = 0
-        while changed and steps < 200:
+        import time as _time
+        t_end = _time.time() + 90
+        while changed and steps < 200 and _time.time() < t_end:
             changed = False
             for i in range(len(cur["macros"])):
                 c = json.loads(json.dumps(cur))
